@@ -194,3 +194,32 @@ Proof.
   destruct (g_tb_node _ _ _ _ GI _ _ Ga) as [TB TM]. split; [| exact TM].
   unfold tbound in TB. rewrite Forall_forall in TB. exact TB.
 Qed.
+
+(* the ghost leader-log records, exposed: one append-only log per term, every AppEnts ever sent is a slice of it *)
+Theorem leader_log_records_sys :
+  forall (bm : list nid) (be : N) (σ0 σ : sys) (sched : list sys_event),
+    linit σ0 ->
+    run sys sys_event (lstep (length (sy_nodes σ0)) bm be) σ0 sched σ ->
+    exists G : list (N * nid * list entry),
+      (forall t i l j l', In (t, i, l) G -> In (t, j, l') G -> pfx l l' \/ pfx l' l) /\
+      (forall t i l, In (t, i, l) G -> i <> 0 -> In (t, i) (sy_hist σ)) /\
+      (forall a, In a (sy_nodes σ) -> n_role a = Leader -> In (p_term (n_p a), n_id a, p_log (n_p a)) G) /\
+      (forall a k e, In a (sy_nodes σ) -> nth_error (p_log (n_p a)) k = Some e ->
+                     exists i l, In (e_term e, i, l) G /\ firstn (S k) (p_log (n_p a)) = firstn (S k) l) /\
+      (forall m pi pt cm oe, In m (sy_soup σ) -> m_body m = AppEnts pi pt cm oe ->
+                             exists i l, In (m_term m, i, l) G /\ slice l pi pt oe) /\
+      (forall m li lt c, In m (sy_soup σ) -> m_body m <> InstallSnap li lt c).
+Proof.
+  intros bm be σ0 σ sched Hinit Hrun.
+  destruct (lrun_inv bm be σ0 sched σ _ (ginv_init bm be σ0 Hinit) Hrun) as [G [GI _]].
+  pose proof (g_el _ _ _ _ GI) as El.
+  assert (Hnd : NoDup (map n_id (sy_nodes σ))) by (apply (i_nodup _ _ El)).
+  exists G. split; [| split; [| split; [| split; [| split]]]].
+  - intros t i l j l' H1 H2. apply (g_cmp _ _ _ _ GI _ _ _ _ _ H1 H2).
+  - intros t i l H Hi. destruct (g_rec_hist _ _ _ _ GI _ _ _ H) as [[Z _] | [_ [X _]]]; [contradiction | exact X].
+  - intros a Ha Hr. apply (g_rec_leader _ _ _ _ GI _ _ (in_get_node _ _ Hnd Ha) Hr).
+  - intros a k e Ha Hk. apply (g_lm_node _ _ _ _ GI _ _ (in_get_node _ _ Hnd Ha) k e Hk).
+  - intros m pi pt cm oe Hm Hb. pose proof (g_msgs _ _ _ _ GI m Hm) as Mk. unfold msg_ok3 in Mk. rewrite Hb in Mk.
+    destruct Mk as [i [l [A [B _]]]]. exists i, l. auto.
+  - intros m li lt c Hm Hb. pose proof (g_msgs _ _ _ _ GI m Hm) as Mk. unfold msg_ok3 in Mk. rewrite Hb in Mk. exact Mk.
+Qed.
